@@ -83,7 +83,7 @@ CLAIMED = {
  "C16": ("exploration",
          "deterministic simulation: real Daemon (both server types) driven through histories of registry operations, with calls and return-object steps going through a real Proxy over the simulated network; explicit GC points verified through the harness's own weakrefs; table-is-truth reference model",
          "seeded search over histories (3-16 steps + a fixed epilogue that lists, calls every id ever seen and returns every pool object) of register (chosen/generated/colliding/reserved ids, force, weak; objects and classes), unregister by object/id, uriFor, proxyFor, call, return-object (serpent/json/msgpack), gc points, registered(); oracle: a call to an id is logged by exactly the modelled object or fails 'unknown object', registered() equals the model, duplicates/reserved refused unless forced, a returned object arrives as a proxy (reaching that very object) iff registered and by value otherwise, also after unregistration by object, by id or by collection",
-         "samples histories; sequential (registry operations never race with calls); register(x, 'Pyro.Daemon', force=True) not generated; five known-finding signatures (forced double registration of one object) are listed in known_findings.json",
+         "samples histories; sequential (registry operations never race with calls); register(x, 'Pyro.Daemon', force=True) not generated; six known-finding signatures (forced double registration of one object, keyed by the state of the registration marks) are listed in known_findings.json",
          "DESIGN.md section 4 C16"),
 }
 PENDING = "claimed in DESIGN.md but its check is not built yet; see DESIGN.md section 4"
